@@ -49,7 +49,7 @@ func VerifHarness_C04_record_layout() {
 // A genuine datagram with exactly one header byte changed (type, version, epoch, sequence number or length, any
 // other value) is never delivered, by ReadFrom or by Read, and does not move the read epoch.
 //
-//verif:harness props=C04,C16 paths=60000 split reach=notDelivered
+//verif:harness props=C04 paths=60000 split reach=notDelivered
 func VerifHarness_C04_header_authenticated() {
 	kind := verifSplitInt("cipher", vcGCM, vcCBC)
 	mode := verifSplitInt("readPath", 0, 1)
@@ -95,6 +95,6 @@ func VerifHarness_C04_header_authenticated() {
 	} else {
 		verifAssert("C04.auth.modifiedLengthDeliversNothingForged", n == 0 || (n == len(pt) && bytes.Equal(buf[:n], pt)))
 	}
-	verifAssert("C16.auth.unauthenticRecordLeavesEpochAlone", r.readEpoch == 1)
+	verifAssert("C04.auth.unauthenticRecordLeavesEpochAlone", r.readEpoch == 1)
 	verifReach("notDelivered")
 }
